@@ -123,22 +123,29 @@ def r1_parseinfo(a, tier):
     ctor = [n for n in walk_no_defs(mp.node) if isinstance(n, ast.Call) and dotted(n.func) == 'ParseInfo']
     if len(ctor) != 1:
         raise AnalysisError('make_parseinfo: expected one ParseInfo(...) construction')
-    kw = {k.arg: norm(k.value) for k in ctor[0].keywords}
-    endvar = kw.get('endpos')
-    end_src = None
-    for n in walk_no_defs(mp.node):
-        if isinstance(n, ast.Assign) and isinstance(n.targets[0], ast.Name) and n.targets[0].id == endvar:
-            end_src = norm(n.value)
-    want = {'rule': name_p, 'pos': pos_p, 'line': f'self.cursor.lineat({pos_p})', 'endline': f'self.cursor.lineat({endvar})'}
-    for fld, w in want.items():
-        ok = kw.get(fld) == w
-        rep.add({'ParseInfo_field': fld, 'from': kw.get(fld), 'want': w, 'ok': ok})
+    from ..rules.common import through_locals
+
+    def res(e):
+        """text of E with single-assignment locals looked through (endpos -> self.pos, cur -> self.cursor)"""
+        e = through_locals(mp, e)
+        if isinstance(e, ast.Call):
+            return f'{res(e.func)}({", ".join(res(x) for x in e.args)})'
+        if isinstance(e, ast.Attribute):
+            return f'{res(e.value)}.{e.attr}'
+        return norm(e)
+    kw = {k.arg: res(k.value) for k in ctor[0].keywords}
+    POS = ('self.pos', 'self.cursor.pos', 'self.state.cursor.pos')
+    want = {'rule': (name_p,), 'pos': (pos_p,), 'line': (f'self.cursor.lineat({pos_p})',),
+            'endline': tuple(f'self.cursor.lineat({x})' for x in POS), 'endpos': POS}
+    for fld, ws in want.items():
+        ok = kw.get(fld) in ws
+        rep.add({'ParseInfo_field': fld, 'from': kw.get(fld), 'want': ws[0], 'ok': ok})
         if not ok:
-            rep.fail(mp.qualname, f'field:{fld}', f'ParseInfo.{fld} is built from `{kw.get(fld)}`, required `{w}`', mp.loc)
-    ok = end_src in ('self.pos', 'self.cursor.pos', 'self.state.cursor.pos') or kw.get('endpos') in ('self.pos',)
-    rep.add({'endpos_source': end_src or kw.get('endpos'), 'ok': ok})
-    if not ok:
-        rep.fail(mp.qualname, 'field:endpos', f'ParseInfo.endpos is not the position at rule exit (`{end_src}`)', mp.loc)
+            rep.fail(mp.qualname, f'field:{fld}', f'ParseInfo.{fld} is built from `{kw.get(fld)}`, required `{ws[0]}`'
+                     + (' (the position at rule exit)' if fld.startswith('end') else ''), mp.loc)
+    if kw.get('endline', '').replace('self.cursor.lineat(', '').rstrip(')') != kw.get('endpos'):
+        rep.fail(mp.qualname, 'field:endline-endpos', f'ParseInfo.endline `{kw.get("endline")}` is not the line of ParseInfo.endpos '
+                 f'`{kw.get("endpos")}`', mp.loc)
     # callers
     for f in a.p.functions.values():
         if not f.qualname.startswith('tatsu.contexts.'):
